@@ -247,6 +247,16 @@ class Interp:
                         for tok in q[1:]:
                             if tok in self.fb and self.fb[tok].get('len'):
                                 rng = (0, self.fb[tok]['bound'])
+            if (n.endswith('::min') or n.endswith('::max') or n.endswith('::clamp')) and len(t['args']) >= 2 and rng is not None:
+                # Ord::min / max / clamp on integers: the result lies within what both operands allow
+                ops = [self.eval_op(st, a) for a in t['args']]
+                if all(o is not None for o in ops):
+                    if n.endswith('::min'):
+                        rng = (max(rng[0], min(o[0] for o in ops)), min(rng[1], min(o[1] for o in ops)))
+                    elif n.endswith('::max'):
+                        rng = (max(rng[0], max(o[0] for o in ops)), min(rng[1], max(o[1] for o in ops)))
+                    elif len(ops) == 3:
+                        rng = (max(rng[0], ops[1][0]), min(rng[1], ops[2][1]))
             st[dl] = rng
             st.pop((dl, '0'), None)
         return st
